@@ -142,6 +142,7 @@ void describe(const char *fmt, ...) {
   char buf[1024];
   va_list ap; va_start(ap, fmt); vsnprintf(buf, sizeof buf, fmt, ap); va_end(ap);
   R->desc += buf;
+  if (R->shared) snprintf(R->shared->desc, sizeof R->shared->desc, "%s", R->desc.c_str());
 }
 
 // ------------------------------------------------------------------ violations
@@ -230,6 +231,7 @@ static void do_switch(Task *from, Task *to) {
   // back here: we are 'from' again
   fiber_landed(from ? from->asan_fake : R->main_fake);
   if (from) errno = from->saved_errno;
+  if (from && R->shared) snprintf(R->shared->cur_api, sizeof R->shared->cur_api, "%s", from->api ? from->api : "");
 }
 
 static void switch_to_main_abandon() {
@@ -241,6 +243,7 @@ static void fiber_entry() {
   fiber_landed(nullptr);
   Task *t = R->current;
   errno = 0;
+  if (R->shared) R->shared->cur_api[0] = 0;
   t->entry();
   exit_task();
 }
